@@ -16,6 +16,7 @@
 }
 */
 #define GS_SPL 4
+#define GS_TABMAX 8
 #include "scan_common.h"
 
 /*
@@ -32,7 +33,7 @@ int g_e_chr;
 size_t g_e_pos, g_e_line, g_e_col, g_e_dlen;
 unsigned g_e_unget, g_e_ungetmax;
 
-#define COL_BEFORE (g_in_pos == 0 ? g_col0 : g_in[g_in_pos - 1] == '\n' ? 0 : g_colof[g_in_pos - 1])
+#define COL_BEFORE (g_in_pos == 0 ? g_col0 : g_in[g_in_pos - 1] == '\n' ? 0 : g_colof(g_in_pos - 1))
 
 #define PRE(X) \
 	X(s != 0 && s->file == ghost_file()) \
